@@ -25,6 +25,14 @@ func poolDoc(r *rng, schema byte) []elem {
 		return []elem{{"x", &val{T: 0x03, Doc: []elem{{"y", i()}, {"s", &val{T: 0x02, B: []byte("str")}}}}}, {"q", &val{T: 0x08, Bool: r.chance(1, 2)}}}
 	case 'G': // same keys as A, type of y changed
 		return []elem{{"x", i()}, {"y", &val{T: 0x10, I: int64(int32(r.i64Value(nil, vmRandom)))}}}
+	case 'H': // H and I: different field names whose concatenation is equal (a|bc vs ab|c)
+		return []elem{{"a", i()}, {"bc", i()}}
+	case 'I':
+		return []elem{{"ab", i()}, {"c", i()}}
+	case 'J': // nested twin of H/I: path concatenations p.a|p.bc vs p.ab|p.c
+		return []elem{{"p", &val{T: 0x03, Doc: []elem{{"ab", i()}, {"c", i()}}}}}
+	case 'K':
+		return []elem{{"p", &val{T: 0x03, Doc: []elem{{"a", i()}, {"bc", i()}}}}}
 	case 'Z': // no metrics at all
 		return []elem{{"s", &val{T: 0x02, B: []byte("only")}}}
 	}
@@ -172,6 +180,17 @@ func init() {
 					if !thorough && len(seq) == 4 && !r.chance(1, 5) {
 						return
 					}
+					id++
+					c := mk(kind, n, seq)
+					c.tag = "acceptall"
+					runHistory(ho, id, c)
+				})
+			}
+		}
+		// 1b. renames that keep the concatenation of the key names (separator-sensitive hashing)
+		for _, kind := range []string{"dyn", "sdyn"} {
+			for _, n := range []int{1, 2, 3} {
+				enumerate("HIJK", 3, func(seq string) {
 					id++
 					c := mk(kind, n, seq)
 					c.tag = "acceptall"
